@@ -153,4 +153,77 @@ def refRun (c : SecCtx) (env : Nat → Env) : Nat → Option RefState
   | 0 => refInit c
   | t + 1 => (refRun c env t).bind (refStep c (env t))
 
+
+/-! ### several processors: the network the `ioatt` lines describe
+
+  One tick of the whole machine as `bondmachine.VM.Step` moves data: a processor input shows what
+  its driver held *before* the tick (an external input: its current value), a processor output's
+  `recv` is the conjunction of its sinks' `recv` before the tick (an external output: the current
+  flag), an external output shows its driver *after* the tick.  The drivers and sinks come from the
+  source's `ioatt` pairs (a later pair for the same sink replaces the earlier one). -/
+
+structure ExtEnv where
+  inputs : Nat → Nat
+  inValid : Nat → Bool
+  outRecv : Nat → Bool
+
+open Topology in
+/-- (driver, sink) for every `ioatt` pair that joins a driver (external input, processor output)
+    with a sink (external output, processor input) -/
+def netOf (src : Source) : List (Bond × Bond) :=
+  (pairs src.cps src.ioatts).filterMap fun (a, b) =>
+    let isSink (x : Bond) : Bool := x.kind == 1 || x.kind == 2
+    let isDrv (x : Bond) : Bool := x.kind == 0 || x.kind == 3
+    if isSink a && isDrv b then some (b, a)
+    else if isSink b && isDrv a then some (a, b)
+    else none
+
+open Topology in
+def driverOf (net : List (Bond × Bond)) (sink : Bond) : Option Bond :=
+  (net.reverse.find? (·.2 == sink)).map (·.1)
+
+open Topology in
+def sinksOf (net : List (Bond × Bond)) (drv : Bond) : List Bond :=
+  ((net.map (·.2)).eraseDups).filter fun s => driverOf net s == some drv
+
+open Topology in
+def drvValue (ext : ExtEnv) (sts : List RefState) (d : Bond) : Nat × Bool :=
+  if d.kind == 0 then (ext.inputs d.res, ext.inValid d.res)
+  else match sts[d.res]? with
+    | some s => (s.outputs d.ext, s.outValid d.ext)
+    | none => (0, false)
+
+open Topology in
+def sinkRecv (ext : ExtEnv) (sts : List RefState) (s : Bond) : Bool :=
+  if s.kind == 1 then ext.outRecv s.res
+  else match sts[s.res]? with
+    | some st => st.inRecv s.ext
+    | none => false
+
+/-- what processor `p` sees on its ports during the tick -/
+def envFor (net : List (Topology.Bond × Topology.Bond)) (ext : ExtEnv) (sts : List RefState) (p : Nat) : Env :=
+  { inputs := fun k => match driverOf net ⟨2, p, k⟩ with | some d => (drvValue ext sts d).1 | none => 0
+    inValid := fun k => match driverOf net ⟨2, p, k⟩ with | some d => (drvValue ext sts d).2 | none => false
+    outRecv := fun o =>
+      let ss := sinksOf net ⟨3, p, o⟩
+      !ss.isEmpty && ss.all (sinkRecv ext sts) }
+
+/-- one tick of every processor (`hold p` = processor `p` spends this tick on the jump the
+    repaired assembler placed at address 0: its reference state does not move) -/
+def netStep (ctxs : List SecCtx) (net : List (Topology.Bond × Topology.Bond)) (ext : ExtEnv) (hold : Nat → Bool)
+    (sts : List RefState) : Option (List RefState) :=
+  (ctxs.zip sts).zipIdx.mapM fun ((c, s), p) =>
+    if hold p then some s else refStep c (envFor net ext sts p) s
+
+/-- the external outputs after the tick: value and valid of output `r` -/
+def extOut (net : List (Topology.Bond × Topology.Bond)) (ext : ExtEnv) (sts' : List RefState) (r : Nat) : Nat × Bool :=
+  match driverOf net ⟨1, r, 0⟩ with
+  | some d => drvValue ext sts' d
+  | none => (0, false)
+
+/-- `recv` of external input `r` after the tick -/
+def extInRecv (net : List (Topology.Bond × Topology.Bond)) (ext : ExtEnv) (sts' : List RefState) (r : Nat) : Bool :=
+  let ss := sinksOf net ⟨0, r, 0⟩
+  !ss.isEmpty && ss.all (sinkRecv ext sts')
+
 end BMV.Basm
